@@ -232,6 +232,13 @@ def mutate(r, kind, doc, force=None):
     if op == "none":
         return "none", d, True, True
     if kind == "testing":
+        if op == "unknown-key-nested" and isinstance(d.get("poly_func_type"), dict):
+            # a model the testing document embeds directly (not through a tagged union): it takes part in the rebuild
+            d["poly_func_type"]["zzz_unknown"] = 1
+            return "unknown-key-in-poly_func_type", d, False, True
+        if op == "unknown-key-nested" and isinstance(d.get("op_def"), dict):
+            d["op_def"]["zzz_unknown"] = 1
+            return "unknown-key-in-op_def", d, None, None
         if op in ("unknown-key", "unknown-key-nested"):
             d["zzz_unknown"] = 1
             return "unknown-key-testing", d, False, True
@@ -329,6 +336,17 @@ def corpus_doc(r, want=None):
         if r.random() < 0.5:
             c = c05.gen_op(r, 1)
             doc["optype"] = {"parent": 0, **c05.dump_op(c05.build_op(c, Builder()))}
+        if r.random() < 0.4 or want:
+            from hugr import tys as _tys
+            from vf.gen.types import gen_poly
+
+            params, body, _, _ = gen_poly(r, g, 1)
+            doc["poly_func_type"] = _tys.PolyFuncType([B.param(p_) for p_ in params], B.func(body))._to_serial(
+                ).model_dump(mode="json")
+        if r.random() < 0.3:
+            e = json.loads(build_extension(gen_extension(r, small=True)).to_json())
+            if e["operations"]:
+                doc["op_def"] = e["operations"][sorted(e["operations"])[0]]
         return k, doc
     if k == "hugr":
         p = gen_program(r, budget=8, max_depth=2)
@@ -353,8 +371,13 @@ def acceptance(ctx, mode, cases):
     cfg = ConfigDict(strict=True, extra="forbid") if strict else ConfigDict(strict=False, extra="allow")
     from hugr._serialization.testing_hugr import TestingHugr
 
-    SerialHugr._pydantic_rebuild(cfg, force=True)
-    TestingHugr._pydantic_rebuild(cfg, force=True)
+    # As in scripts/generate_schema.py a configuration is established for a model by ITS OWN _pydantic_rebuild, coming
+    # from whatever configuration was in force before (there: the other one).  So: put everything into the other
+    # configuration first, then rebuild the testing model and judge the testing documents, then rebuild the HUGR model
+    # and judge the rest.  (Rebuilding both up front would hide a rebuild that leaves one of its own members behind.)
+    other = ConfigDict(strict=False, extra="allow") if strict else ConfigDict(strict=True, extra="forbid")
+    SerialHugr._pydantic_rebuild(other, force=True)
+    TestingHugr._pydantic_rebuild(other, force=True)
     fn = "hugr_schema_strict_live.json" if strict else "hugr_schema_live.json"
     schema = json.loads((env.REPO / "specification" / "schema" / fn).read_text())
     val = {k: jsonschema.Draft202012Validator({"$ref": f"#/$defs/{n}", "$defs": schema["$defs"]})
@@ -362,9 +385,12 @@ def acceptance(ctx, mode, cases):
     tschema = json.loads((env.REPO / "specification" / "schema" / ("testing_" + fn)).read_text())
     val["testing"] = jsonschema.Draft202012Validator({"$ref": "#/$defs/TestingHugr", "$defs": tschema["$defs"]})
     model = {"hugr": SerialHugr, "package": Package, "extension": Extension, "testing": TestingHugr}
-    if ctx.shard == 0:
-        validator_keys(ctx, mode, model, {"hugr": schema, "package": schema, "extension": schema, "testing": tschema})
-    for case in cases:
+    TestingHugr._pydantic_rebuild(cfg, force=True)
+    phase2 = False
+    for case in sorted(cases, key=lambda c_: c_["kind"] != "testing"):
+        if case["kind"] != "testing" and not phase2:
+            SerialHugr._pydantic_rebuild(cfg, force=True)
+            phase2 = True
         kind, mop, doc, exp = case["kind"], case["mutation"], case["doc"], case["expect"][0 if strict else 1]
         ctx.count(f"monitor:acceptance-agreement-{mode}")
         ctx.count("expect:" + ("either" if exp is None else "accept" if exp else "reject"))
@@ -391,6 +417,10 @@ def acceptance(ctx, mode, cases):
             # both agree with each other but not with the operator's intent: a harness expectation problem
             ctx.disc(None, f"operator-expectation[{mode}.{mop}]", rec, exp, js, stratum="acceptance", case=rec,
                      prop="HARNESS")
+    if not phase2:
+        SerialHugr._pydantic_rebuild(cfg, force=True)
+    if ctx.shard == 0:
+        validator_keys(ctx, mode, model, {"hugr": schema, "package": schema, "extension": schema, "testing": tschema})
 
 
 def validator_keys(ctx, mode, models, schemas):
@@ -452,6 +482,11 @@ def validator_keys(ctx, mode, models, schemas):
                              sorted(got), stratum="schema", case=case)
 
 
+def _ff_force(i):
+    # testing documents alternate between the unconstrained positions and an unknown key inside a directly embedded model
+    return "unknown-key-nested" if i % 3 and i % 2 else "free-form"
+
+
 def gen_cases(ctx, n):
     cases = []
     for i in ctx.mine(n):
@@ -478,7 +513,7 @@ def gen_cases(ctx, n):
     for i in ctx.mine(ctx.n(240, 6000)):
         r = ctx.rng("ff", i)
         kind, doc = corpus_doc(r, want="testing" if i % 3 else "extension")
-        m = mutate(r, kind, doc, force="free-form")
+        m = mutate(r, kind, doc, force=_ff_force(i))
         if m is None:
             continue
         mop, d, es, el = m
@@ -501,7 +536,7 @@ def replay(ctx, rec):
         r = ctx.rng(*case["rng"])
         if case["rng"][0] == "ff":
             kind, doc = corpus_doc(r, want="testing" if case["rng"][1] % 3 else "extension")
-            mop, d, es, el = mutate(r, kind, doc, force="free-form")
+            mop, d, es, el = mutate(r, kind, doc, force=_ff_force(case["rng"][1]))
             acceptance(ctx, case.get("mode", "strict"),
                        [{"kind": kind, "mutation": mop, "doc": d, "expect": [es, el], "rng": case["rng"]}])
             return
